@@ -116,7 +116,9 @@ type world struct {
 	// midFetch, when set, runs once inside the next new-tree request, between
 	// the tombstone check and the arrival of the response.
 	midFetch func()
-	mon      *monitor
+	// midDeleter: does the deleter also run inside that window (0: PRNG, 1: yes, 2: no)
+	midDeleter int
+	mon        *monitor
 	// restarted: nodes rebuilt from disk during the current step
 	restarted map[int]bool
 }
